@@ -64,7 +64,8 @@ def strategy(shard):
             contests = []
             for i in range(k):
                 n = draw(st.integers(2, 5))
-                cs = draw(st.lists(st.sampled_from(["15", "16", "17", "18", "45", "7"]), min_size=n, max_size=n, unique=True))
+                # (identifiers are whatever stands between the commas: numbers in the shipped data, names with blanks elsewhere)
+                cs = draw(st.lists(st.sampled_from(["15", "16", "17", "18", "45", "7", "Ann Lee", "O Brien"]), min_size=n, max_size=n, unique=True))
                 contests.append({"id": str(339 + i), "cands": cs, "winner": draw(st.sampled_from(cs)),
                                  "informal": draw(st.sampled_from([None, 0, 3]))})
             rows = []
@@ -203,7 +204,7 @@ def evaluate(case, out):
     cvrs = si.raire_cvrs(case)
     contest = RContest(case.get("contest_name", "c"), list(case["cands"]), case["winner"], len(case["ballots"]) + case.get("tot_extra", 0), order=case["order_hint"] or [])
     try:
-        res = compute_raire_assertions(contest, cvrs, case["winner"], getattr(sample_estimator, case["asn"]), False)
+        res = compute_raire_assertions(contest, cvrs, case["winner"], si.difficulty(case["asn"]), False)
     except Exception as e:  # noqa
         out.lib_exception("compute_raire_assertions", e)
         return
